@@ -17,6 +17,7 @@ static const unsigned char AL[] = {0, 1, 255, 7, 9, 254, 128, 2};
 static std::string valjson(link_or_value* lv) {
     value* vp = lv->get_value();
     if (vp == nullptr) return "[\"N\"]";
+    if (!value::is_value_ptr(vp)) return "[\"V\"," + std::to_string((int)(std::uintptr_t)vp) + "]";   // inline value (inlpct): the id is the slot word
     return "[\"V\"," + std::to_string(*(int*)value::get_body(vp)) + "]";
 }
 static bool in_range(const std::string& k, const std::string& l, scan_endpoint le, const std::string& r, scan_endpoint re) {
@@ -90,7 +91,13 @@ int main(int argc, char** argv) {
         // in it must not show up in a later report
         static inserted_node_info info{nullptr, nullptr}; node_version64* legacy_nvp = nullptr; char* created = nullptr; bool use_legacy = (long)(rng() % 100) < legacy;
         status rc;
-        if (use_legacy) rc = put<char>(tok, st, k, (char*)buf, vlen, &created, (value_align_type)valign, uniq, &legacy_nvp);
+        // inlpct: that share of the puts stores an INLINE value (std::uintptr_t: the word lives in the slot, nothing is allocated: mem_usage
+        // must count 0 bytes for it; seed C20d).  Only profiles without get / scan / iscan use it (those read values as char bodies).
+        bool inl = argi("inlpct", 0) > 0 && (long)(rng() % 100) < argi("inlpct", 0);
+        if (inl) { std::uintptr_t w = (std::uintptr_t)vid; std::uintptr_t* cr = nullptr; vlen = 0; valign = 0;
+            if (use_legacy) rc = put<std::uintptr_t>(tok, st, k, &w, sizeof(w), &cr, (value_align_type)alignof(std::uintptr_t), uniq, &legacy_nvp);
+            else rc = put<std::uintptr_t>(tok, st, k, &w, sizeof(w), &cr, (value_align_type)alignof(std::uintptr_t), uniq, &info); }
+        else if (use_legacy) rc = put<char>(tok, st, k, (char*)buf, vlen, &created, (value_align_type)valign, uniq, &legacy_nvp);
         else rc = put<char>(tok, st, k, (char*)buf, vlen, &created, (value_align_type)valign, uniq, &info);
         vh::Canon post(ti);
         std::string changed = "[", newb = "["; bool f1 = true, f2 = true;
@@ -104,8 +111,8 @@ int main(int argc, char** argv) {
         bool modex = false, crex = false; for (auto& kv : before) { if (kv.first->get_version_ptr() == mod) modex = true; if (kv.first->get_version_ptr() == cre) crex = true; }
         std::string o = "{\"op\":\"put\",\"k\":" + vh::jbytes(k) + ",\"v\":" + std::to_string(vid) + ",\"uniq\":" + vh::jb(uniq) + ",\"st\":\"" + vh::stname(rc) + "\"";
         o += std::string(",\"legacy\":") + vh::jb(use_legacy) + ",\"rep\":[" + std::to_string(post.ofver(mod)) + "," + std::to_string(post.ofver(cre)) + "],\"modex\":" + vh::jb(modex) + ",\"crex\":" + vh::jb(crex) + ",\"changed\":" + changed + ",\"newb\":" + newb;
-        o += std::string(",\"cpok\":") + vh::jb(rc != status::OK || (created != nullptr && *(int*)created == vid));
-        o += ",\"vsz\":" + std::to_string(vlen + (valign < 8 ? 8 : valign));
+        o += std::string(",\"cpok\":") + vh::jb(inl || rc != status::OK || (created != nullptr && *(int*)created == vid));
+        o += ",\"vsz\":" + std::to_string(inl ? 0 : vlen + (valign < 8 ? 8 : valign));
         if (probe) {
             o += ",\"probe\":["; for (std::size_t q = 0; q < last_nv.size(); q++) { if (q) o += ","; o += vh::jb(!(last_nv[q].second->get_stable_version() == last_nv[q].first)); } o += "]";
         }
